@@ -1,54 +1,13 @@
 import IRModel.CodeWrapper
 /-
-  L4b — `CodeWrapper.__init__` on the MANCHESTER path for tables without middle timings
-  (code_wrapper.py:362-381 + 503-531 with `middle_timings == []`, then the shared 546-562 and 698-750).
-  Every remaining duration is one half bit (`mark` / `space` of `bursts[0]`) or two equal half bits that merged;
-  the flat half-bit list is then paired and looked up exactly as on the general path.  The lead-in and lead-out
-  loops are the general ones (same Python branch).  The `lead_in[-1] == -999999999999` escape (RC6MBIT) and middle
-  timings (RC6 toggle, RC5x) are not modelled: `supportedM` excludes those tables.
+  L4b — the Manchester path of `CodeWrapper.__init__` for tables without middle timings now lives in
+  `IRModel/CodeWrapper.lean` (`manchOne`, `manchAll`, `parseWithM`, `supportedM`) because `parse` dispatches on the
+  symbol table as the constructor does. This module keeps the old names.
 -/
 namespace IRModel.Manchester
 open IRModel IRModel.Py IRModel.Match IRModel.Bits IRModel.CodeWrapper
 
-/-- one duration of a bi-phase stream -/
-def manchOne (tol : Tol) (mark space burst : Int) : Option (List Int) :=
-  if isMatch tol burst mark then some [mark]
-  else if isMatch tol burst space then some [space]
-  else if isMatch tol burst (mark * 2) then some [mark, mark]
-  else if isMatch tol burst (space * 2) then some [space, space]
-  else none
-
-def manchAll (tol : Tol) (mark space : Int) : List Int → Except PyErr (List Int)
-  | [] => .ok []
-  | b :: rest =>
-    match manchOne tol mark space b with
-    | none => .error .irStream
-    | some v => (manchAll tol mark space rest).map (v ++ ·)
-
-def supportedM (t : Tables) : Bool :=
-  t.shape == .pairs && !t.hasMiddle && streamEnc t.bursts == .manchester && !t.bursts.isEmpty &&
-  t.leadIn.getLast? != some (-999999999999)
-
-/-- `CodeWrapper(...)` on the Manchester path -/
-def parseWithM (tol : Tol) (leadIn leadOut : List Int) (bursts : List (Int × Int)) (data : List Int) :
-    Except PyErr Parsed := do
-  periodCheck tol leadOut data
-  let totalTime := sumAbs data.dropLast
-  let (code1, cleanedIn) ← leadInLoop tol bursts leadIn data []
-  let (code2, half, cleanedLo) ← leadOutLoop tol bursts leadOut.length totalTime leadOut 0 code1 [] []
-  let code3 := code2 ++ half
-  let ms := bursts.headD (0, 0)
-  let vals ← manchAll tol ms.1 ms.2 code3
-  let (bits, extra) ← pairsToBits bursts (pairUp vals)
-  let cleaned0 : List (Option Int) := (cleanedIn ++ vals ++ extra).map some ++ cleanedLo
-  if cleaned0.isEmpty then .error .irStream
-  else
-    let body := cleaned0.dropLast.map (·.getD 0)
-    let last : Int := match cleaned0.getLast? with
-      | some (some v) => v
-      | some none => -(leadOut.getLastD 0) + sumAbs body
-      | none => 0
-    pure { bits := bits, cleaned := compress (body ++ [last]) }
+export IRModel.CodeWrapper (manchOne manchAll parseWithM supportedM)
 
 def parseM (t : Tables) (tol : Tol) (data : List Int) : Except PyErr Parsed :=
   parseWithM tol t.leadIn t.leadOut t.bursts data
